@@ -4,6 +4,7 @@ import (
 	"go/constant"
 	"go/token"
 	"go/types"
+	"sort"
 	"strings"
 
 	"nechk/core"
@@ -453,5 +454,96 @@ func tailReturnSites(fn *ssa.Function) []core.DeepSite {
 		}
 	}
 	collect(fn, nil, nil)
+	return out
+}
+
+// lockPairing: every hand-written module function that locks a mutex releases
+// it on every path to every return (a deferred unlock counts). A lock left
+// held on one path blocks every later caller.
+func lockPairing(c *Ctx, rule string) {
+	p, r := c.P, c.R
+	r.Rule(rule, "lock pairing, module-wide: for every mutex a hand-written function locks (sync.Mutex / sync.RWMutex, identified by its field), the lock-state dataflow reaches every return with the mutex released and without conflicting states; a path that returns with the lock held blocks every later handshake / call")
+	n := 0
+	for _, fn := range p.ModuleFuncs() {
+		if fn.Blocks == nil || isGenerated(p, fn) {
+			continue
+		}
+		fields := map[string]bool{}
+		for _, ci := range core.AllCalls(fn) {
+			cal := ci.Common().StaticCallee()
+			if cal == nil || len(ci.Common().Args) == 0 {
+				continue
+			}
+			nm := cal.String()
+			if strings.HasSuffix(nm, "sync.Mutex).Lock") || strings.HasSuffix(nm, "sync.RWMutex).Lock") || strings.HasSuffix(nm, "sync.RWMutex).RLock") {
+				fields[strings.TrimPrefix(core.PathOf(ci.Common().Args[0]).Last(), "&")] = true
+			}
+		}
+		var fs []string
+		for f := range fields {
+			fs = append(fs, f)
+		}
+		sort.Strings(fs)
+		for _, f := range fs {
+			if f == "" {
+				continue
+			}
+			n++
+			li := core.LockFlow(p, fn, f, core.LNone)
+			var bad []string
+			for ret, st := range li.AtReturn {
+				if st != core.LNone {
+					bad = append(bad, p.Pos(ret.Pos())+" returns holding "+st.String())
+				}
+			}
+			sort.Strings(bad)
+			r.Check(len(bad) == 0, rule, core.FuncName(fn)+" releases "+f, p.Pos(fn.Pos()), "released on every return", "mutex "+f+" is still held on a return path ("+strings.Join(bad, "; ")+"): every later caller blocks")
+		}
+	}
+	if n == 0 {
+		r.OK(rule, "module lock sites", "", "no function locks a mutex")
+	}
+}
+
+// upperBoundTests lists "len(x) > K" / "len(x) >= K" tests (and their mirrored
+// forms) in fn and the helpers it was split into, with the value measured.
+type lenBound struct {
+	If   *ssa.If
+	Val  ssa.Value // the measured value (frame-substituted)
+	K    int64
+	Site core.DeepSite
+}
+
+func upperBoundTests(fn *ssa.Function) []lenBound {
+	var out []lenBound
+	for _, site := range core.SplitFind(fn, nil, func(in ssa.Instruction) bool { _, ok := in.(*ssa.If); return ok }) {
+		ifi := site.Instr.(*ssa.If)
+		bo, ok := ifi.Cond.(*ssa.BinOp)
+		if !ok {
+			continue
+		}
+		x, y, op := bo.X, bo.Y, bo.Op
+		if _, isC := core.ConstInt(x); isC {
+			x, y = y, x
+			switch op {
+			case token.LSS:
+				op = token.GTR
+			case token.LEQ:
+				op = token.GEQ
+			case token.GTR:
+				op = token.LSS
+			case token.GEQ:
+				op = token.LEQ
+			}
+		}
+		k, isK := core.ConstInt(y)
+		lc, isLen := x.(*ssa.Call)
+		if !isK || !isLen || core.CalleeName(lc.Common()) != "builtin:len" || (op != token.GTR && op != token.GEQ) {
+			continue
+		}
+		var v ssa.Value
+		site.In(func() { v = core.Strip(lc.Call.Args[0]) })
+		out = append(out, lenBound{If: ifi, Val: v, K: k, Site: site})
+	}
 	return out
 }
